@@ -570,6 +570,11 @@ func apply(b *built, m mutation) (*protoobject.GetRequest, map[provKey][]byte, b
 		case "other-hop":
 			sg.Key = vkit.NewSigner(fmt.Sprintf("c33-hop%d", (hop+1)%3), own.Scheme).KeyBytes()
 		case "uncompressed":
+			// same public key in another SEC1 form: still a genuine signature of the same signer over the same
+			// bytes (for ECDSA schemes), so it is recorded as such; the property is silent on key encodings.
+			if want, ok := b.prov[provKey{int32(sg.Scheme), string(sg.Key), string(sg.Sign)}]; ok && own.Scheme != vkit.N3 {
+				extra[provKey{int32(sg.Scheme), string(own.Priv.PublicKey().UncompressedBytes()), string(sg.Sign)}] = want
+			}
 			sg.Key = own.Priv.PublicKey().UncompressedBytes()
 		case "empty":
 			sg.Key = nil
@@ -607,7 +612,11 @@ func apply(b *built, m mutation) (*protoobject.GetRequest, map[provKey][]byte, b
 			sg.Sign = vkit.NewSigner("c33-mallory", slotScheme(m.A)).Sign(slotMsg(m.A))
 		case "malleated-high-s":
 			if slotScheme(m.A) != vkit.N3 {
+				// (r, n-s) is the other genuine ECDSA signature of the same signer over the same bytes
 				if x := malleate(slotScheme(m.A), sg.Sign); x != nil {
+					if want, ok := b.prov[provKey{int32(sg.Scheme), string(sg.Key), string(sg.Sign)}]; ok {
+						extra[provKey{int32(sg.Scheme), string(sg.Key), string(x)}] = want
+					}
 					sg.Sign = x
 				}
 			}
@@ -890,6 +899,30 @@ func (b *built) mutClass(m mutation) string {
 	return "structure:" + m.Kind
 }
 
+// diffClass names the first leaf in which a decoded request differs from the pristine one (wire-level mutations).
+func (b *built) diffClass(req *protoobject.GetRequest) string {
+	type lv struct {
+		path []int
+		val  string
+	}
+	collect := func(m *protoobject.GetRequest) (r []lv) {
+		walk(m.ProtoReflect(), nil, func(path []int, _ protoreflect.FieldDescriptor, v protoreflect.Value) {
+			r = append(r, lv{path, fmt.Sprint(v.Interface())})
+		}, nil)
+		return
+	}
+	x, y := collect(b.req), collect(req)
+	for i := range x {
+		if i >= len(y) || fmt.Sprint(x[i].path) != fmt.Sprint(y[i].path) {
+			return "structure:wire-bit"
+		}
+		if x[i].val != y[i].val {
+			return b.mutClass(mutation{Kind: "flip", Path: x[i].path})
+		}
+	}
+	return "structure:wire-bit"
+}
+
 func leafOf(class string) string {
 	switch {
 	case strings.Contains(class, ".sign["):
@@ -944,6 +977,8 @@ type world struct {
 	r       *ev.Run
 	mu      sync.Mutex
 	classes map[string]int64
+	viols   map[string]int64
+	accepted map[string]bool
 	builds  sync.Map
 }
 
@@ -954,6 +989,13 @@ func (w *world) built(c config) *built {
 	b := build(c)
 	v, _ := w.builds.LoadOrStore(c.String(), b)
 	return v.(*built)
+}
+
+func (w *world) viol(fp, what string, rep any) {
+	w.mu.Lock()
+	w.viols[fp]++
+	w.mu.Unlock()
+	w.r.Violation(fp, what, rep)
 }
 
 func (w *world) class(k string) {
@@ -982,7 +1024,7 @@ func (w *world) check(b *built, m mutation, envs []env) {
 		mr := model(b, mreq, extra, e, m)
 		err, pan := runImpl(req, e)
 		if pan != nil {
-			r.Violation("panic-in-verification:"+leafOf(cls), fmt.Sprintf("%v %v %v: panic %v", b.cfg, m, e, pan), tc)
+			w.viol("panic-in-verification:"+leafOf(cls), fmt.Sprintf("%v %v %v: panic %v", b.cfg, m, e, pan), tc)
 			continue
 		}
 		accepted := err == nil
@@ -996,12 +1038,16 @@ func (w *world) check(b *built, m mutation, envs []env) {
 		}
 		switch {
 		case accepted && mr.verdict == mustReject:
-			ctxNote := ""
-			if e.Entry != 0 && e.Ctx == 3 {
-				ctxNote = ":authenticated-peer"
+			if m.Kind == "wire-bit" {
+				cls = b.diffClass(mreq)
 			}
-			fp := fmt.Sprintf("accepted-unauthentic:first-invalid-slot-scheme=%s:mutated=%s%s", schemeName(mr.badSch), leafOf(cls), ctxNote)
-			r.Violation(fp, fmt.Sprintf("request %v, mutation %v (%s), entry %v: ACCEPTED although %s (slot scheme %s); spec: must be rejected",
+			fp := fmt.Sprintf("accepted-unauthentic:first-invalid-slot-scheme=%s:mutated=%s", schemeName(mr.badSch), leafOf(cls))
+			w.mu.Lock()
+			if len(w.accepted) < 400 {
+				w.accepted[fmt.Sprintf("%v %s %v", b.cfg, cls, m)] = true
+			}
+			w.mu.Unlock()
+			w.viol(fp, fmt.Sprintf("request %v, mutation %v (%s), entry %v: ACCEPTED although %s (slot scheme %s); spec: must be rejected",
 				b.cfg, m, cls, e, mr.why, schemeName(mr.badSch)), tc)
 		case !accepted && mr.verdict == mustAccept:
 			what := "pristine"
@@ -1010,9 +1056,9 @@ func (w *world) check(b *built, m mutation, envs []env) {
 			} else if m.Kind != "identity" {
 				what = m.Kind
 			}
-			r.Violation("rejected-authentic:"+what, fmt.Sprintf("request %v, mutation %v, entry %v: rejected (%v) although %s", b.cfg, m, e, err, mr.why), tc)
+			w.viol("rejected-authentic:"+what, fmt.Sprintf("request %v, mutation %v, entry %v: rejected (%v) although %s", b.cfg, m, e, err, mr.why), tc)
 		}
-		if accepted && !mr.exempt && req.VerifyHeader != nil {
+		if accepted && !mr.exempt && mr.chainOK && req.VerifyHeader != nil {
 			w.checkAuthor(b, req, mr, tc, cls)
 		}
 		if r.WantSample() && m.Kind != "identity" && mr.verdict == mustReject && (m.Kind == "perm" || m.Kind == "swap-slots" || (m.Kind == "flip" && m.Bit == 3 && m.Byte == 7)) {
@@ -1035,9 +1081,8 @@ func (w *world) checkAuthor(b *built, req *protoobject.GetRequest, mr modelResul
 		defer func() { pan = recover() }()
 		id, key, err = icrypto.GetRequestAuthor(req.VerifyHeader)
 	}()
-	r := w.r
 	if pan != nil {
-		r.Violation("author-panic-after-accept:"+leafOf(cls), fmt.Sprintf("%+v: GetRequestAuthor panicked on an accepted request: %v", tc, pan), tc)
+		w.viol("author-panic-after-accept:"+leafOf(cls), fmt.Sprintf("%+v: GetRequestAuthor panicked on an accepted request: %v", tc, pan), tc)
 		return
 	}
 	if err != nil {
@@ -1049,12 +1094,12 @@ func (w *world) checkAuthor(b *built, req *protoobject.GetRequest, mr modelResul
 		return // already reported as accepted-unauthentic
 	}
 	if !mr.bodyOK || bs == nil || !bytes.Equal(key, bs.Key) {
-		r.Violation("author-without-valid-body-signature:"+leafOf(cls), fmt.Sprintf("%+v: author %s reported but the outermost body signature is not valid", tc, id), tc)
+		w.viol("author-without-valid-body-signature:"+leafOf(cls), fmt.Sprintf("%+v: author %s reported but the outermost body signature is not valid", tc, id), tc)
 		return
 	}
 	want, ok := expectedUser(int32(bs.Scheme), bs.Key)
 	if !ok || want != id {
-		r.Violation("author-id-mismatch:"+schemeName(int32(bs.Scheme)), fmt.Sprintf("%+v: author %s, expected account of the body signer %s", tc, id, want), tc)
+		w.viol("author-id-mismatch:"+schemeName(int32(bs.Scheme)), fmt.Sprintf("%+v: author %s, expected account of the body signer %s", tc, id, want), tc)
 		return
 	}
 	w.class("author=body-signer")
@@ -1142,14 +1187,14 @@ func peerauthCases(r *ev.Run, w *world) {
 		w.class(fmt.Sprintf("peerauth cert=%s trusted=%v", c.name, got))
 		r.Nontrivial("peerauth|" + c.name)
 		if got != c.trusted {
-			r.Violation("peerauth-classification:"+c.name, fmt.Sprintf("TLS peer %s: authenticated=%v, spec %v", c.name, got, c.trusted), map[string]any{"peerauth": c.name})
+			w.viol("peerauth-classification:"+c.name, fmt.Sprintf("TLS peer %s: authenticated=%v, spec %v", c.name, got, c.trusted), map[string]any{"peerauth": c.name})
 			continue
 		}
 		if got {
 			ctx := peer.NewContext(context.Background(), &peer.Peer{AuthInfo: ai})
 			k, err := peerauth.PeerPublicKey(ctx)
 			if err != nil || k == nil || !bytes.Equal(k.Bytes(), p256.PublicKey().Bytes()) || !peerauth.IsTrustedPeer(ctx) {
-				r.Violation("peerauth-key-mismatch", "authenticated peer key differs from the certificate key", map[string]any{"peerauth": c.name})
+				w.viol("peerauth-key-mismatch", "authenticated peer key differs from the certificate key", map[string]any{"peerauth": c.name})
 			}
 		}
 	}
@@ -1158,7 +1203,7 @@ func peerauthCases(r *ev.Run, w *world) {
 func main() {
 	r := ev.Start("C33", ev.Exploration)
 	initContexts(r)
-	w := &world{r: r, classes: map[string]int64{}}
+	w := &world{r: r, classes: map[string]int64{}, viols: map[string]int64{}, accepted: map[string]bool{}}
 	if r.Replay != "" {
 		var tc tcase
 		r.LoadReplay(&tc)
@@ -1204,9 +1249,13 @@ func main() {
 				combos = append(combos, a, bb)
 			}
 		}
-		for _, reg := range regimes {
-			for _, sc := range combos {
+		for ri, reg := range regimes {
+			for si, sc := range combos {
 				for _, ttl := range []uint32{1, 2} {
+					// quick: the outer TTL alternates over (regime, scheme assignment) instead of being crossed with them
+					if r.Quick() && L > 1 && uint32((ri+si)%2)+1 != ttl {
+						continue
+					}
 					cfgs = append(cfgs, config{Layers: L, Regime: reg, Schemes: sc, TTL: ttl})
 				}
 			}
@@ -1225,25 +1274,32 @@ func main() {
 	every := allEnvs()
 	// Bit-level mutations are run where the verdict is decided by the signatures: the N3-capable entry with an
 	// unauthenticated TLS peer and with an authenticated peer, plus the plain entry; all other mutations under all 9.
-	bitEnvs := []env{{2, 2}, {2, 3}, {0, 0}}
-	if r.Thorough() {
-		bitEnvs = []env{{2, 2}, {2, 3}, {0, 0}, {1, 0}, {1, 3}}
-	}
-	pick := func(m mutation) []env {
-		if m.Kind == "flip" || m.Kind == "wire-bit" {
-			return bitEnvs
+	pickFor := func(c config) func(m mutation) []env {
+		// quick: one decided environment per configuration for bit-level mutations: TTL 1 with a TLS peer that is NOT
+		// an authenticated node, TTL 2 with an authenticated node peer (the exemption must apply to neither).
+		bitEnvs := []env{{2, 2}}
+		if c.TTL != 1 {
+			bitEnvs = []env{{2, 3}}
 		}
-		return every
+		if r.Thorough() {
+			bitEnvs = []env{{2, 2}, {2, 3}, {0, 0}, {1, 0}, {1, 3}}
+		}
+		return func(m mutation) []env {
+			if m.Kind == "flip" || m.Kind == "wire-bit" {
+				return bitEnvs
+			}
+			return every
+		}
 	}
 	var jobs []job
 	total := 0
 	for _, c := range cfgs {
 		b := w.built(c)
-		wire := r.Thorough() || c.TTL == 1
+		wire := r.Thorough() || c.TTL == 1 || c.Layers > 1
 		ms := enumerate(b, wire)
 		total += len(ms)
 		for i := 0; i < len(ms); i += 512 {
-			jobs = append(jobs, job{b, ms[i:min(i+512, len(ms))], pick})
+			jobs = append(jobs, job{b, ms[i:min(i+512, len(ms))], pickFor(c)})
 		}
 	}
 	expired := false
@@ -1291,12 +1347,12 @@ func main() {
 						rep := map[string]any{"exemption_case": m.Name, "regime": reg, "env": e}
 						switch {
 						case pan != nil:
-							r.Violation("panic-in-verification:exemption-product", fmt.Sprintf("%s %v: %v", m.Name, e, pan), rep)
+							w.viol("panic-in-verification:exemption-product", fmt.Sprintf("%s %v: %v", m.Name, e, pan), rep)
 						case acc && mr.verdict == mustReject:
-							r.Violation(fmt.Sprintf("accepted-unsigned-or-invalid:vh=%s:ttl-is-1=%v:ctx=%s:entry=%s", vhKind, ttl == 1, ctxNames[e.Ctx], entryNames[e.Entry]),
+							w.viol(fmt.Sprintf("accepted-unsigned-or-invalid:vh=%s:ttl-is-1=%v:ctx=%s:entry=%s", vhKind, ttl == 1, ctxNames[e.Ctx], entryNames[e.Entry]),
 								fmt.Sprintf("%s regime %s entry %v accepted; spec: %s", m.Name, reg, e, specExemption), rep)
 						case !acc && mr.verdict == mustAccept:
-							r.Violation(fmt.Sprintf("rejected-authentic:exemption-product:vh=%s", vhKind), fmt.Sprintf("%s regime %s entry %v rejected: %v", m.Name, reg, e, err), rep)
+							w.viol(fmt.Sprintf("rejected-authentic:exemption-product:vh=%s", vhKind), fmt.Sprintf("%s regime %s entry %v rejected: %v", m.Name, reg, e, err), rep)
 						}
 					}
 				}
@@ -1308,6 +1364,15 @@ func main() {
 	w.mu.Lock()
 	r.Set("outcome_classes", len(w.classes))
 	r.Set("outcomes", w.classes)
+	r.Set("violation_classes", w.viols)
+	if len(w.accepted) > 0 {
+		var acc []string
+		for k := range w.accepted {
+			acc = append(acc, k)
+		}
+		sort.Strings(acc)
+		r.Set("accepted_unauthentic_cases", acc)
+	}
 	w.mu.Unlock()
 	r.Set("pristine_configurations", len(cfgs))
 	r.Set("mutations_enumerated", total)
